@@ -78,7 +78,7 @@ func genCommentBody(t *rapid.T) string {
 	return s
 }
 
-var verbatimTags = []string{"{{ v0 }}", "{{ v1|upper }}", "{% if v0 %}", "{% endif %}", "{{ spy(3) }}", "{% set q = spy(4) %}", "{# c #}", "{{ 'lit' ~ v0 }}", "{% for i in v0 %}", "{% endfor %}", "{% include v1 %}"}
+var verbatimTags = []string{"{{ v0 -}}", "{{- v1 }}", "{%- if v0 -%}", "{{- spy(5) -}}", "{#- c -#}", "{{ v0 }}", "{{ v1|upper }}", "{% if v0 %}", "{% endif %}", "{{ spy(3) }}", "{% set q = spy(4) %}", "{# c #}", "{{ 'lit' ~ v0 }}", "{% for i in v0 %}", "{% endfor %}", "{% include v1 %}"}
 
 func genVerbatimBody(t *rapid.T) (string, bool) {
 	var b strings.Builder
@@ -250,7 +250,7 @@ func c04Expect(segs []*S, vals map[string]BStr, w *bytes.Buffer, exactVerbatim *
 			if strings.Contains(string(s.T), "{{") || strings.Contains(string(s.T), "{%") || strings.Contains(string(s.T), "{#") {
 				*exactVerbatim = false
 			}
-			w.WriteString("\x01VERB\x02" + string(s.T) + "\x01/VERB\x02")
+			w.WriteString("\x01VERB\x02" + c04VerbatimPattern(string(s.T)) + "\x01/VERB\x02")
 		case "if":
 			c04Expect(s.Bodies[0], vals, w, exactVerbatim)
 		case "for":
@@ -258,6 +258,67 @@ func c04Expect(segs []*S, vals map[string]BStr, w *bytes.Buffer, exactVerbatim *
 			c04Expect(s.Body, vals, w, exactVerbatim)
 		}
 	}
+}
+
+const c04Gap = "\x01GAP\x02"
+
+// c04VerbatimPattern replaces every tag-shaped span of a verbatim body by a gap marker: how the
+// engine spells such a span in the output is not fixed by the statement, but the text between the
+// spans is literal text and must come out in order. The whitespace next to a dashed delimiter is
+// dropped from the expectation (the gap absorbs it if the engine keeps it).
+func c04VerbatimPattern(body string) string {
+	var b strings.Builder
+	rest := body
+	for {
+		i := -1
+		var closer string
+		for _, d := range [][2]string{{"{{", "}}"}, {"{%", "%}"}, {"{#", "#}"}} {
+			if j := strings.Index(rest, d[0]); j >= 0 && (i < 0 || j < i) {
+				i, closer = j, d[1]
+			}
+		}
+		if i < 0 {
+			b.WriteString(rest)
+			return b.String()
+		}
+		text, tail := rest[:i], rest[i+2:]
+		end := strings.Index(tail, closer)
+		if end < 0 {
+			// an opening delimiter that is never closed inside the body: everything after it is a gap
+			b.WriteString(text + c04Gap)
+			return b.String()
+		}
+		if strings.HasPrefix(tail, "-") {
+			text = strings.TrimRight(text, " \t\r\n")
+		}
+		b.WriteString(text + c04Gap)
+		rest = tail[end+2:]
+		if end > 0 && tail[end-1] == '-' {
+			rest = strings.TrimLeft(rest, " \t\r\n")
+		}
+	}
+}
+
+// c04MatchPattern: out consists of the chunks of pattern (split at the gap markers) in order,
+// the first one as a prefix and the last one as a suffix, with anything in the gaps.
+func c04MatchPattern(pattern, out string) bool {
+	chunks := strings.Split(pattern, c04Gap)
+	if len(chunks) == 1 {
+		return out == pattern
+	}
+	if !strings.HasPrefix(out, chunks[0]) {
+		return false
+	}
+	pos := len(chunks[0])
+	for _, ch := range chunks[1 : len(chunks)-1] {
+		j := strings.Index(out[pos:], ch)
+		if j < 0 {
+			return false
+		}
+		pos += j + len(ch)
+	}
+	last := chunks[len(chunks)-1]
+	return len(out)-len(last) >= pos && strings.HasSuffix(out, last)
 }
 
 func hasVerbatimTags(segs []*S) bool {
@@ -369,6 +430,14 @@ func checkC04(c C04Case) error {
 		}
 		if !markerPrinted && strings.Contains(outs[0], "MARK<") {
 			return fmt.Errorf("verbatim output contains context data: %s; source %s", q(outs[0]), q(src2))
+		}
+		// the text around the tag-shaped spans of the bodies, and everything outside the bodies, is
+		// literal text: in the output, in order
+		var pat bytes.Buffer
+		c04Expect(segs, c.Vals, &pat, &exact)
+		patS := strings.NewReplacer("\x01VERB\x02", "", "\x01/VERB\x02", "").Replace(pat.String())
+		if !c04MatchPattern(patS, outs[0]) {
+			return fmt.Errorf("literal text around the tags of a verbatim body is missing or out of order: got %s, want %s (anything at %s); source %s", q(outs[0]), q(patS), q(c04Gap), q(src2))
 		}
 	}
 	return nil
